@@ -37,7 +37,9 @@ LEVEL_TEXT = (
     "the index maps of np.pad wrap / symmetric / edge / constant (boundary_index_maps_eq_np_pad); sliding_window_view "
     "over the right-overlapped blocks concatenates to NumPy's windows of the whole axis "
     "(sliding_window_view_eq_global, guard shown necessary); ensure_minimum_chunksize keeps the total, makes every "
-    "chunk >= size and raises only when the axis is shorter than size. Validated, not proved: that boundaries() / "
+    "chunk >= size and raises only when the axis is shorter than size; with several array arguments the trim follows "
+    "the depth/boundary of the FIRST argument of highest rank (trim_follows_first_highest_rank, diffed at function "
+    "level through the declared and computed extents). Validated, not proved: that boundaries() / "
     "np.pad compute these index maps (diffed cell by cell), the N-d product (axes padded one after the other), "
     "rechunking (C23), map_overlap's argument handling (several arrays, drop_axis/new_axis, trim=False)."
 )
@@ -51,6 +53,8 @@ ASSUMPTIONS = [
     "concatenate_shaped joins the neighbouring pieces in order along each axis; the N-d overlap is the per-axis product",
     "np.pad(mode=wrap/symmetric/edge/constant) is the reference for boundary=periodic/reflect/nearest/<value>",
     "chunk.trim(x3, 2*d) on the overlapped padded array removes exactly the two overlapped pad blocks (checked block by block in section ovb)",
+    "sorted(seq, key=k)[-1] is the element with the largest key (keys pairwise distinct): modelled as a running maximum",
+    "map_blocks takes the lazy chunks of an output axis from the first argument that has the axis (hence per-array depths are only consistent when a lower-rank argument in front of the governing one agrees with it on shared axes)",
 ]
 TRUSTED = ["dask.array.rechunk (property C23)", "np.lib.stride_tricks.sliding_window_view on one block"]
 
@@ -524,6 +528,154 @@ def case_mapov2(ctx, inp):
     ctx.branch("mapov2-low-rank-first" if inp["low_rank_first"] else "mapov2-high-rank-first")
 
 
+def case_trimarg(ctx, inp):
+    """Which argument's depth drives the trim of map_overlap (function level): 2-4 arrays of ranks 1-3 (lower ranks
+    broadcast along the leading axes), pairwise different depths on the shared last axis, periodic boundary. The function
+    returns a block whose last-axis length is that of the FIRST argument's block, so the declared and the computed chunks
+    of the result are c + 2*d_0 - 2*d_T: they reveal the governing argument T, compared with Lean `trimArg`."""
+    import numpy as np
+    import dask.array as da
+    ranks, depths, c = inp["ranks"], inp["depths"], list(inp["chunks"])
+    n = sum(c)
+    lead = [2, 3]            # extents of the (unchunked) leading axes
+    arrs = []
+    for r in ranks:
+        shape = tuple(lead[len(lead) - (r - 1):]) + (n,) if r > 1 else (n,)
+        arrs.append(da.from_array(np.arange(int(np.prod(shape))).reshape(shape), chunks=tuple((s,) for s in shape[:-1]) + (tuple(c),)))
+    maxr = max(ranks)
+
+    def f(*blocks):
+        hb = max(blocks, key=lambda b: b.ndim)
+        return np.zeros(hb.shape[:-1] + (blocks[0].shape[-1],), dtype="i8")
+
+    dl = [{**{a: 0 for a in range(r - 1)}, r - 1: d} for r, d in zip(ranks, depths)]
+    r = da.map_overlap(f, *arrs, depth=dl, boundary="periodic", dtype="i8", align_arrays=inp["align"])
+    model = unsym(ctx.lean(Sym("trimarg"), ranks))
+    want_d = depths[model]
+    decl = [int(v) for v in r.chunks[-1]]
+    # 2*d_T = c_j + 2*d_0 - declared_j
+    got_2d = set(cj + 2 * depths[0] - dj for cj, dj in zip(c, decl))
+    if got_2d != {2 * want_d}:
+        cand = [i for i, d in enumerate(depths) if {2 * d} == got_2d]
+        ctx.disagree("argument whose depth drives the trim of map_overlap", model, cand[0] if cand else sorted(got_2d))
+    comp = np.asarray(r.compute(scheduler="sync"))
+    if comp.shape[-1] != sum(decl):
+        ctx.fail("map_overlap (several arrays): computed extent differs from the declared chunks", observed=list(comp.shape),
+                 expected=sum(decl))
+    if comp.shape[-1] != n + len(c) * 2 * (depths[0] - want_d):
+        ctx.fail("map_overlap (several arrays) is not trimmed by the depth of the first argument of highest rank",
+                 observed=list(comp.shape), expected=n + len(c) * 2 * (depths[0] - want_d))
+    ctx.branch("trimarg")
+    if sum(1 for x in ranks if x == maxr) > 1:
+        ctx.branch("trimarg-tie-on-highest-rank")
+    if ranks[0] != maxr:
+        ctx.branch("trimarg-first-is-not-highest")
+
+
+def case_mapovn(ctx, inp):
+    """map_overlap over 2-3 arrays with PER-ARRAY depths and boundaries that differ (lists of dicts / ints / tuples,
+    lists of dicts / strings / scalars), equal and unequal ranks, align_arrays on and off, trim=True. Every argument is
+    overlapped by its own depth and boundary; the function applies one linear stencil per argument (radius within that
+    argument's depth), strips each argument's own overlap and adds the cores inside a block shaped like the FIRST argument
+    of highest rank (the one whose depth the trim follows). Reference: sum over the arguments of
+    trim_i(stencil_i(np.pad(arr_i, depth_i, boundary_i)))."""
+    import numpy as np
+    import dask.array as da
+    chunks2 = [tuple(c) for c in inp["chunks"]]               # chunks of the 2-d shape (n0, n1)
+    shape2 = tuple(sum(c) for c in chunks2)
+    specs = inp["args"]           # per argument: rank (1|2), depth per own axis, boundary per own axis, stencil offsets/weights
+    arrs, np_arrs = [], []
+    for i, sp in enumerate(specs):
+        shape = shape2 if sp["rank"] == 2 else (shape2[1],)
+        a = ((np.arange(int(np.prod(shape))).reshape(shape) * (i + 2)) % 17 + i).astype("int64")
+        np_arrs.append(a)
+        arrs.append(da.from_array(a, chunks=tuple(chunks2) if sp["rank"] == 2 else (chunks2[1],)))
+    ranks = [sp["rank"] for sp in specs]
+    T = unsym(ctx.lean(Sym("trimarg"), ranks))
+
+    def ext(sp, ax, loc, nch):
+        d, b = sp["depth"][ax], sp["boundary"][ax]
+        return (d if (loc > 0 or b != "none") else 0), (d if (loc < nch - 1 or b != "none") else 0)
+
+    def f(*blocks, block_info=None):
+        if block_info is None:      # meta inference
+            return np.zeros((0,) * max(ranks), dtype="int64")
+        cores = []
+        for i, (blk, sp) in enumerate(zip(blocks, specs)):
+            g = _stencil(sp["weights"], sp["offsets"])(blk)
+            sl = []
+            for ax in range(blk.ndim):
+                lo, hi = ext(sp, ax, block_info[i]["chunk-location"][ax], block_info[i]["num-chunks"][ax])
+                sl.append(slice(lo, blk.shape[ax] - hi))
+            cores.append(g[tuple(sl)])
+        core = sum(np.broadcast_to(cv, cores[T].shape) if cv.ndim == cores[T].ndim else cv[None, :] + np.zeros_like(cores[T])
+                   for cv in cores)
+        out = np.zeros(blocks[T].shape, dtype="int64")
+        sl = []
+        for ax in range(blocks[T].ndim):
+            lo, hi = ext(specs[T], ax, block_info[T]["chunk-location"][ax], block_info[T]["num-chunks"][ax])
+            sl.append(slice(lo, blocks[T].shape[ax] - hi))
+        out[tuple(sl)] = core
+        return out
+
+    # reference
+    exp = np.zeros(shape2 if 2 in ranks else (shape2[1],), dtype="int64")
+    for a, sp in zip(np_arrs, specs):
+        ap, trims = a, []
+        for ax in range(a.ndim):
+            d, b = sp["depth"][ax], sp["boundary"][ax]
+            if d and b != "none":
+                pw = [(0, 0)] * a.ndim
+                pw[ax] = (d, d)
+                ap = np.pad(ap, pw, mode=KINDS[b]) if b in KINDS else np.pad(ap, pw, mode="constant", constant_values=b)
+                trims.append(slice(d, ap.shape[ax] - d))
+            else:
+                trims.append(slice(None))
+        g = _stencil(sp["weights"], sp["offsets"])(ap)[tuple(trims)]
+        exp = exp + (g if g.ndim == exp.ndim else g[None, :])
+
+    def fmt_depth(sp):
+        d = sp["depth"]
+        style = sp.get("dstyle", "dict")
+        if style == "int" and len(set(d)) == 1:
+            return d[0]
+        if style == "tuple":
+            return tuple(d)
+        return {ax: v for ax, v in enumerate(d)}
+
+    def fmt_bnd(sp):
+        b = sp["boundary"]
+        if sp.get("bstyle") == "scalar" and len(set(map(str, b))) == 1:
+            return b[0]
+        return {ax: v for ax, v in enumerate(b)}
+
+    try:
+        r = da.map_overlap(f, *arrs, depth=[fmt_depth(sp) for sp in specs], boundary=[fmt_bnd(sp) for sp in specs],
+                           dtype="int64", align_arrays=inp["align"], allow_rechunk=False)
+        got = np.asarray(r.compute(scheduler="sync"))
+    except Exception as e:
+        ctx.fail("map_overlap over several arrays raised " + type(e).__name__, observed=repr(e)[:300])
+        return
+    if got.shape != exp.shape or (got != exp).any():
+        ctx.fail("map_overlap over several arrays with per-array depth/boundary differs from the sum of the per-argument "
+                 "pad-apply-trim references", observed=[list(got.shape), got.tolist()], expected=[list(exp.shape), exp.tolist()])
+        return
+    if tuple(sum(c) for c in r.chunks) != got.shape:
+        ctx.fail("map_overlap over several arrays: declared chunks do not add up to the computed shape",
+                 observed=[list(c) for c in r.chunks], expected=list(got.shape))
+    ctx.branch("mapovn-%d-arrays" % len(specs))
+    ctx.branch("mapovn-align" if inp["align"] else "mapovn-no-align")
+    hi = [i for i, x in enumerate(ranks) if x == max(ranks)]
+    if len(hi) > 1:
+        ctx.branch("mapovn-tie-on-highest-rank")
+        if any(specs[i]["depth"] != specs[hi[0]]["depth"] for i in hi[1:]):
+            ctx.branch("mapovn-tie-with-different-depths")
+        if any(specs[i]["boundary"] != specs[hi[0]]["boundary"] for i in hi[1:]):
+            ctx.branch("mapovn-tie-with-different-boundaries")
+    if len(set(ranks)) > 1:
+        ctx.branch("mapovn-unequal-ranks")
+
+
 def case_mapov3(ctx, inp):
     """map_overlap with drop_axis / new_axis (depth and boundary are renumbered for the trim) and with trim=False."""
     import numpy as np
@@ -618,7 +770,7 @@ def case_swv(ctx, inp):
         ctx.branch("swv-repeated-axis")
 
 
-CASES = {"ovb": case_ovb, "swvblocks": case_swvblocks, "mapov3": case_mapov3, "mapov2": case_mapov2, "chunks": case_chunks, "emc": case_emc, "blocks": case_blocks, "bnd": case_bnd, "trimid": case_trimid,
+CASES = {"trimarg": case_trimarg, "mapovn": case_mapovn, "ovb": case_ovb, "swvblocks": case_swvblocks, "mapov3": case_mapov3, "mapov2": case_mapov2, "chunks": case_chunks, "emc": case_emc, "blocks": case_blocks, "bnd": case_bnd, "trimid": case_trimid,
          "mapov": case_mapov, "swv": case_swv}
 
 
@@ -728,6 +880,58 @@ def generate(ctx):
                          "boundary": rng.choice(["none", "reflect", "periodic", "nearest", 1]),
                          "offsets": [[rng.randint(-d0, d0), rng.randint(-d1, d1)] for _ in range(k)],
                          "weights": [rng.randint(-2, 3) or 1 for _ in range(k)], "low_rank_first": rng.random() < 0.5}
+    # which argument drives the trim: ranks with ties, pairwise different depths
+    for _ in range(ctx.n(40, 500)):
+        k = rng.randint(2, 4)
+        ranks = [rng.randint(1, 3) for _ in range(k)]
+        if rng.random() < 0.6:
+            ranks[rng.randrange(k)] = max(ranks)        # a tie on the highest rank
+            j = rng.randrange(k)
+            ranks[j] = max(ranks)
+        depths = rng.sample(range(0, 5), k)
+        m = 2 * max(depths) + 1          # every trimmed chunk stays positive whichever argument drives the trim
+        c = _chunks_at_least(rng, rng.randint(m, m + 12), m)
+        yield "trimarg", {"ranks": ranks, "depths": depths, "chunks": c, "align": rng.random() < 0.6}
+    # map_overlap over 2-3 arrays, per-array depth and boundary that differ
+    for _ in range(ctx.n(70, 1200)):
+        k = rng.choice([2, 2, 3])
+        ranks = [rng.choice([2, 2, 1]) for _ in range(k)]
+        if rng.random() < 0.7:
+            ranks[0] = ranks[-1] = 2 if rng.random() < 0.8 else 1
+        two_d = 2 in ranks
+        args, maxd = [], [0, 0]
+        for rk in ranks:
+            nax = rk
+            bnd = [rng.choice(["periodic", "reflect", "nearest", "none", "none", 0, 5]) for _ in range(nax)]
+            if rng.random() < 0.3:
+                bnd = [bnd[0]] * nax
+            depth = [rng.randint(0, 3) for _ in range(nax)]
+            if rng.random() < 0.2:
+                depth = [depth[0]] * nax
+            for ax in range(nax):
+                g = ax + (2 - rk)
+                maxd[g] = max(maxd[g], depth[ax])
+            kk = rng.randint(1, 3)
+            args.append({"rank": rk, "depth": depth, "boundary": bnd,
+                         "offsets": [[rng.randint(-depth[ax], depth[ax]) for ax in range(nax)] for _ in range(kk)],
+                         "weights": [rng.randint(-3, 3) or 1 for _ in range(kk)],
+                         "dstyle": rng.choice(["dict", "int", "tuple"]), "bstyle": rng.choice(["dict", "scalar"])})
+        # the lazy chunks of the result come, axis by axis, from the FIRST argument that has the axis, the trim from the
+        # first argument of highest rank (T): a lower-rank argument in front of T must agree with T on the axes they share
+        T = ranks.index(max(ranks))
+        for i in range(T):
+            rk = ranks[i]
+            for ax in range(rk):
+                g = ax + (ranks[T] - rk)
+                args[i]["depth"][ax] = args[T]["depth"][g]
+                args[i]["boundary"][ax] = args[T]["boundary"][g]
+            args[i]["offsets"] = [[max(-args[i]["depth"][ax], min(args[i]["depth"][ax], o[ax])) for ax in range(rk)]
+                                  for o in args[i]["offsets"]]
+        # (an axis of total length one counts as broadcastable in blockwise: its lazy chunks would come from another argument)
+        n0 = rng.randint(max(2, maxd[0]), max(2, maxd[0]) + 5) if two_d else 1
+        n1 = rng.randint(max(2, maxd[1]), max(2, maxd[1]) + 6)
+        chunks = [_chunks_at_least(rng, n0, max(1, maxd[0])), _chunks_at_least(rng, n1, max(1, maxd[1]))]
+        yield "mapovn", {"chunks": chunks, "args": args, "align": rng.random() < 0.6}
     # map_overlap with drop_axis / new_axis / trim=False
     for _ in range(ctx.n(45, 500)):
         mode = rng.choice(["drop_axis", "new_axis", "trim_false"])
